@@ -127,6 +127,85 @@ CLAIMED = {
         design_ref='7/C15', note=COMMON_NOTE + ' exp for 4 < |x| < ~11.8 and pow rest on sampled oracle judgements.',
         technique='Lean 4 proof (partial; formal counterexample for the finding) + differential correspondence + mpmath search oracle + known-findings file'),
     'C16': dict(
+        text='FULL. Theorem SfxProps.C16.holds (= C16_statement, SfxProps/C16Acc.lean) over Mathlib\'s reals for every supported signed type and operand: sin/cos within 2^-16 for |x| <= 200 (proved budget '
+             '104.65/105.29 of 128 units of 2^-23) and within [-1-2^-16, 1+2^-16]; tan within (1+tan^2 x)/2^14 for |x| <= 100, |tan x| <= 64. Nothing assumed: each arctan table entry (regenerated from the '
+             'source) within 2^-53 of Real.arctan 2^-i, pi enclosures for the 23-bit constants, rotation invariant with truncation, angle-/vector-error separation for tan. The tan clause is closed by real '
+             'analysis alone for f >= 24; for f = 23 (three widths, computation proved width-independent) and 30 < |tan x| <= 64 the kernel evaluates the inner cos call\'s 24 CORDIC steps on all 299 000 '
+             'grid points of the near-pole window (decide +kernel over a Nat encoding proved equal to the model; 16 generated files, tools/gen_tan3.py; no native_decide) against a certified cosine enclosure. '
+             'The mpmath oracle keeps judging the implementation\'s answers on every run (search for failing inputs when the correspondence breaks).',
+        design_ref='7/C16', note=COMMON_NOTE,
+        technique='Lean 4 proof (integer CORDIC trace + real analysis + kernel enumeration of one window) + differential correspondence + mpmath search oracle'),
+    'C17': dict(
+        text='Theorem SfxProps.C17.holds: for ALL layouts and operands the iteration count recorded by the model of sqrt/log2/ln/exp/pow/sin/cos/tan is at most 4*width+64 '
+             '(sharper per-function bounds in `sharp`). The model gives the two data-dependent loops fuel (halving: width+1; range reduction: 2 after the repaired remainder step) and '
+             'turns fuel exhaustion into a panic; that this panic is unreachable is part of C12 and is exercised by the correspondence, which compares the hook counter of the real '
+             '(fuel-less) loops with the model count on every request incl. MIN/MAX/1ulp. The unbounded range-reduction loops were repaired in /repo (fix c0749e7).',
+        design_ref='7/C17', note=COMMON_NOTE + ' Hook: thread-local counter incremented in each loop body of transcendental.rs under the guard.',
+        technique='Lean 4 proof (structural tick bounds) over executable model + hook-counter correspondence'),
+    'C03': dict(
+        text='Theorems SfxProps.C03.fixed_holds / float_holds (full strength): for EVERY ordered pair of valid layouts (integers = zero-fraction layouts, both operand orders) '
+             'partial_cmp and the six operators equal the comparison of the exact values; for f32/f64 finite floats compare by exact value in both operand orders, NaN is unordered '
+             'and unequal, infinities lie outside; same-type Ord/Eq (and Hash, derived from the bits) coincide with the value order. Four defects found by this check were repaired '
+             'in /repo (sign of converted bits, top binade/NaN, subnormal scale, -0.0). Correspondence: typed operators for every family pair x {0,mid,n}^2, 12 integer types, f32/f64.',
+        design_ref='7/C03', note=COMMON_NOTE + ' Hash equality is checked through DefaultHasher in the harness only.', technique='Lean 4 proof over executable model + differential correspondence'),
+    'C13': dict(
+        text='Theorem SfxProps.C13.holds (full strength over the model): for every supported source/destination pair (same type or a widening admitted by From; >= 4 fractional '
+             'bits and three magnitude bits above the point, which covers every type of the quantifier) and EVERY operand: no panic and no debug-only check; Err only for negative operands or '
+             'operands in (0,1) whose reciprocal is not representable; otherwise 0 <= r and (r-4)^2 <= X <= (r+4)^2 (exact integer bracket = 4 ulp), exact at 0 and 1; on the direct path the '
+             'result is within ONE ulp. Proof: the loop is the integer Newton iteration; halving phase + quadratic phase convergence within int_bits/2+8 steps (the code runs >= int_bits/2+10 '
+             'after fix d5514a8, which this check motivated). Correspondence + exact bracket verdict in the driver + mpmath search oracle.',
+        design_ref='7/C13', note=COMMON_NOTE + ' mpmath is used only to search for failing inputs.', technique='Lean 4 proof (integer Newton convergence) over executable model + differential correspondence'),
+    'C11': dict(
+        text='Every model function returns ONE Outcome (release value + "a debug-only check fires" flag); theorem profiles_agree: whenever the checking build returns it returns the '
+             'release value, for every modelled call; theorem no_debug_only_panic_holds / more_families: the checked/saturating/wrapping/overflowing forms of arithmetic, rounding, remainders, '
+             'Euclidean division, float conversions and Wrapping programs never set the flag (corollaries of C02 C05 C06 C07 C18; sqrt: C13). The tie to the code is the point of this check: the '
+             'union corpus of the other properties (1.2 M requests in quick) is executed by the harness built WITH and WITHOUT debug assertions/overflow checks and both are compared with the '
+             'model projections. Parsing/formatting requests join the corpus once their models are merged. Defects D4, D5, D8 (profile-dependent) were found this way and repaired.',
+        design_ref='7/C11', note=COMMON_NOTE + ' Both profiles use opt-level 1; code generation differences beyond the two flags are outside the model.',
+        technique='Lean 4 proof (Outcome discipline) + two-profile differential correspondence'),
+    'C12': dict(
+        text='FULL. Theorems SfxProps.C12.result_functions_hold (sqrt, log2, ln, exp, pow, powi: for every operand of every supported signed type and EVERY integer exponent no panic and no '
+             'debug-only check), sin_cos_total (sin for every angle, cos for |x| <= 200 — stronger than asked), log_err_only_when_undefined, log2_iterations, and '
+             'SfxProps.C12.tan_total_holds (SfxProps/C12Tan.lean): tan returns Ok without panic or debug-only check for every |x| <= 100 with |Real.tan x| <= 64 — the non-zero denominator '
+             'and representable quotient follow from the proved sin/cos accuracy (C16). tan_partial/tan_panic_example show the condition is sharp (an I9F23 angle 6e-6 below pi/2 panics). '
+             'Correspondence in both profiles incl. i32::MIN exponents; panics observed only outside the property\'s domain.',
+        design_ref='7/C12', note=COMMON_NOTE, technique='Lean 4 proof (value invariants through the loops; real analysis for tan) over executable model + two-profile correspondence'),
+    'C13': dict(
+        text='Theorem SfxProps.C13.holds (full strength over the model): for every supported source/destination pair (same type or a widening admitted by From; >= 4 fractional '
+             'bits and three magnitude bits above the point, which covers every type of the quantifier) and EVERY operand: no panic and no debug-only check; Err only for negative operands or '
+             'operands in (0,1) whose reciprocal is not representable; otherwise 0 <= r and (r-4)^2 <= X <= (r+4)^2 (exact integer bracket = 4 ulp), exact at 0 and 1; on the direct path the '
+             'result is within ONE ulp. Proof: the loop is the integer Newton iteration; halving phase + quadratic phase convergence within int_bits/2+8 steps (the code runs >= int_bits/2+10 '
+             'after fix d5514a8, which this check motivated). Correspondence + exact bracket verdict in the driver + mpmath search oracle.',
+        design_ref='7/C13', note=COMMON_NOTE + ' mpmath is used only to search for failing inputs.', technique='Lean 4 proof (integer Newton convergence) over executable model + differential correspondence'),
+    'C11': dict(
+        text='Every model function returns ONE Outcome (release value + "a debug-only check fires" flag); theorem profiles_agree: whenever the checking build returns it returns the '
+             'release value, for every modelled call; theorem no_debug_only_panic_holds / more_families: the checked/saturating/wrapping/overflowing forms of arithmetic, rounding, remainders, '
+             'Euclidean division, float conversions and Wrapping programs never set the flag (corollaries of C02 C05 C06 C07 C18; sqrt: C13). The tie to the code is the point of this check: the '
+             'union corpus of the other properties (1.2 M requests in quick) is executed by the harness built WITH and WITHOUT debug assertions/overflow checks and both are compared with the '
+             'model projections. Parsing/formatting requests join the corpus once their models are merged. Defects D4, D5, D8 (profile-dependent) were found this way and repaired.',
+        design_ref='7/C11', note=COMMON_NOTE + ' Both profiles use opt-level 1; code generation differences beyond the two flags are outside the model.',
+        technique='Lean 4 proof (Outcome discipline) + two-profile differential correspondence'),
+    'C12': dict(
+        text='Theorems SfxProps.C12.result_functions_hold (sqrt, log2, ln, exp, pow, powi: for every operand of every supported signed type and EVERY integer exponent no panic and no '
+             'debug-only check — full), sin_cos_total (sin for every angle, cos for |x| <= 200 — full, stronger than asked), log_err_only_when_undefined, log2_iterations. '
+             'tan: PARTIAL (tan_partial): the two inner calls are total and tan panics/flags exactly when the computed denominator is zero / the quotient does not fit; that this cannot '
+             'happen where |tan x| <= 64 needs the unproved accuracy of cos (C16). Correspondence in both profiles incl. i32::MIN exponents; panics observed only outside the property\'s domain.',
+        design_ref='7/C12', note=COMMON_NOTE, technique='Lean 4 proof (value invariants through the loops) over executable model + two-profile correspondence'),
+    'C14': dict(
+        text='FULL. Theorem SfxProps.C14.holds proves C14_statement over Mathlib\'s reals (Real.logb 2, Real.log) for every source layout S and supported destination D with D: From<S> '
+             '(S = D included) and every operand: |r - log2 x| <= 8 ulp (the proof gives 4.5), |r - ln x| <= 2^-23 |ln x| + 8 ulp (the proof gives 4.2; the relative term is the truncated '
+             'LOG2_E constant, bounded with Real.log_two_gt_d9/lt_d9), the sign claims, exactness on every power of two, the exact Err condition, no panic. '
+             'The mpmath oracle still judges the implementation\'s answers on every run (worst observed 0.43 of the bound) as the search for failing inputs when the correspondence breaks.',
+        design_ref='7/C14', note=COMMON_NOTE, technique='Lean 4 proof (integer trace + potential-function argument over the reals) + differential correspondence + mpmath search oracle'),
+    'C15': dict(
+        text='PARTIAL + KNOWN FINDING, with both sides proved. SfxProps/C15Acc.lean: statement_false proves NOT C15_statement by a formal counterexample (exp::<I32F32>(20.0): the model returns '
+             '481239358.98 by kernel evaluation while e^20 > 485165190 from Real.exp_one_gt_d9; allowed error ~463) — this is known finding D10 (ids D10-exp, D10-pow; predicate: omitted series tail '
+             '> 2^-24 e^x), replayed against the implementation on every run; exp_holds_le_four proves the exp clause word for word for every supported type and |x| <= 4. '
+             'SfxProps/C15.lean: C15_partial proves the whole powi clause (exact rational bound (n-1) ulp * max(1,|x|)^(n-1) for n >= 2, truncated reciprocal for n < 0) and the conventions 0^y, x^0, x^1 '
+             'of pow and powi; totality is C12. NOT proved: the pow error bound, exp for 4 < |x| inside the validity region; any oracle-judged failure outside the finding\'s region is a VIOLATION.',
+        design_ref='7/C15', note=COMMON_NOTE + ' exp for 4 < |x| < ~11.8 and pow rest on sampled oracle judgements.',
+        technique='Lean 4 proof (partial; formal counterexample for the finding) + differential correspondence + mpmath search oracle + known-findings file'),
+    'C16': dict(
         text='sin/cos FULL; tan FULL for every type with >= 24 fractional bits, PARTIAL for the three layouts with exactly 23. SfxProps/C16Acc.lean over Mathlib\'s reals: sin_cos_holds (every supported type, '
              'every |x| <= 200: error <= 2^-16, proved budget 104.65/105.29 of 128 units of 2^-23; result within [-1-2^-16, 1+2^-16]); tan_holds (|tan x| <= tanT f, tanT = 64 for f >= 24, 30 for f = 23); '
              'holds_f24 (whole statement for f >= 24); C16_statement_partial (whole statement with tanT); statement_of_f23 (C16_statement follows from the one open case f = 23, 30 < |tan x| <= 64). '
